@@ -2,13 +2,15 @@
 collide pairwise in every way the workspace can be confused by.
 
     A   (ns1, a)  decision Who = "A"
-    B   (ns1, b)  decision Who = "B"     same namespace as A, different name
+    B   (ns1, a - b)  decision Who = "B" same namespace as A, different name
     C   (ns2, a)  decision Who = "C"     same name as A, different namespace
     A2  (ns1, a)  decision Who = "A2"    identical key to A (DESIGN's A'); different content so a replacement is observable
     D   (ns3, c)  decision Who = "D"     disjoint from all
     E   (ns4, d)  decision Who = 1 +     parses (dmntk_model::parse accepts it) but ModelEvaluator::new fails: FEEL syntax error
-    F   (ns3/, f) decision Who = "F"     its namespace differs from D's only by a trailing slash: keys are compared as given, so it
-                                         is a different namespace (a workspace that normalises keys in one place only drifts here)
+    F   (ns3/, a-b) decision Who = "F"   its namespace differs from D's only by a trailing slash, its name from B's only by the blanks
+                                         around the hyphen (the same FEEL name, another string): keys are compared as given, so it is
+                                         a different namespace and a different name (a workspace that normalises keys in one place
+                                         only drifts here)
 
 Every model has one decision `Who` without requirements whose value names the model text, so that evaluating
 (model name, "Who") tells which definitions are deployed under that name.
@@ -32,23 +34,23 @@ def model_xml(namespace, name, feel_text, decision=INVOCABLE):
 # tag -> (namespace, name, builds, value of Who when deployed)
 MODELS = {
     "A": ("ns1", "a", True, "A"),
-    "B": ("ns1", "b", True, "B"),
+    "B": ("ns1", "a - b", True, "B"),
     "C": ("ns2", "a", True, "C"),
     "A2": ("ns1", "a", True, "A2"),
     "D": ("ns3", "c", True, "D"),
     "E": ("ns4", "d", False, None),
-    "F": ("ns3/", "f", True, "F"),
+    "F": ("ns3/", "a-b", True, "F"),
 }
 TAGS = ["A", "B", "C", "A2", "D", "E", "F"]          # simplest first
 XML = {tag: model_xml(ns, name, '"%s"' % val if builds else "1 +") for tag, (ns, name, builds, val) in MODELS.items()}
 
 NAMESPACES = ["ns1", "ns2", "ns3", "ns4", "ns3/"]
-NAMES = ["a", "b", "c", "d", "f"]
+NAMES = ["a", "a - b", "c", "d", "a-b"]
 # remove() arguments: the five model keys first, then the cross pairs, then a pair nobody has
-MODEL_KEYS = [("ns1", "a"), ("ns1", "b"), ("ns2", "a"), ("ns3", "c"), ("ns4", "d"), ("ns3/", "f")]
+MODEL_KEYS = [("ns1", "a"), ("ns1", "a - b"), ("ns2", "a"), ("ns3", "c"), ("ns4", "d"), ("ns3/", "a-b")]
 CROSS_KEYS = [(ns, nm) for ns in NAMESPACES for nm in NAMES if (ns, nm) not in MODEL_KEYS]
 REMOVE_KEYS = MODEL_KEYS + CROSS_KEYS + [("nsX", "x")]
-EVAL_NAMES = NAMES + ["x"]
+EVAL_NAMES = NAMES + ["x", "a -b"]      # "a -b": a third spelling of the same FEEL name, which no model has
 
 
 def key_of(tag):
